@@ -28,9 +28,6 @@ Explain(r, P, occ, ord, d, obs, exp) ==
   LET extra == obs \ exp
       missing == exp \ obs IN
   IF extra = {} /\ missing = {} THEN "ok"
-  (* `a as x' of a selective import is recorded as ONE usage spanning the whole argument: the two tokens are missing, *)
-  (* a location that is no identifier occurrence (-2) is returned instead                                             *)
-  ELSE IF missing # {} /\ missing \subseteq AliasedItemOids(FilesOf(r)[r.main]) /\ extra \subseteq {-2} THEN "AliasedImportArgIsOneUsage"
   ELSE IF (\A x \in missing : Ambiguous(P, x, ord)) /\ (\A y \in extra : (y = WholeFile /\ occ.file # r.main) \/ Ambiguous(P, y, ord))
     THEN (IF \E x \in extra : x = WholeFile THEN "ImportedFileSpanShadowsSymbols" ELSE "UsageOfEarlierPassKept")
   ELSE "no"
